@@ -95,14 +95,20 @@ func compare(a, b any) int {
 	case int:
 		return a - b.(int)
 	case string:
+		rawA, rawB := a, b.(string)
 		a = strings.ToLower(a)
-		b := strings.ToLower(b.(string))
+		b := strings.ToLower(rawB)
 		if a == b {
-			return 0
+			// Same up to letter case: only identical strings are equal
+			return strings.Compare(rawA, rawB)
 		}
 		for i := 0; i < len(a) && i < len(b); i++ {
 			if a[i] != b[i] {
-				return stringWeights[a[i]] - stringWeights[b[i]]
+				if res := stringWeights[a[i]] - stringWeights[b[i]]; res != 0 {
+					return res
+				}
+				// Bytes outside the alphabet all have the same weight: order them by value
+				return int(a[i]) - int(b[i])
 			}
 		}
 		return len(a) - len(b)
